@@ -12,7 +12,11 @@ import productmd.treeinfo
 KINDS = ["none", "bool", "int", "float", "str", "list", "dict"]
 
 
-def make_value(sym, kind, name, maxlen):
+# rules whose documented pattern says "digit" with \d: whether a non-ASCII decimal digit counts is a documentation-silent corner
+DIGIT_SILENT = ("compose-id", "date", "label", "tree-version")
+
+
+def make_value(sym, kind, name, maxlen, rule=None):
     if kind == "none":
         return None
     if kind == "bool":
@@ -23,8 +27,9 @@ def make_value(sym, kind, name, maxlen):
         return [0.5, -1.25, 1e300][len(name) % 3]
     if kind == "str":
         s = sym.str(name, maxlen)
-        # where the documentation is silent: non-ASCII decimal digits, and newlines (a '$' before a final newline)
-        sym.assume(sym.chars_in(s, "ascii"))
+        # where the documentation is silent: non-ASCII decimal digits in \d-patterns, and newlines (a '$' before a final newline)
+        if rule is None or rule in DIGIT_SILENT:
+            sym.assume(sym.chars_in(s, "ascii"))
         sym.assume(sym.no_char(s, "\n"))
         return s
     if kind == "list":
